@@ -104,6 +104,12 @@ type Opts struct {
 
 func addMap(dst, src map[string]int) {
 	for k, v := range src {
+		if strings.HasPrefix(k, "max-") {
+			if v > dst[k] {
+				dst[k] = v
+			}
+			continue
+		}
 		dst[k] += v
 	}
 }
